@@ -56,7 +56,13 @@ with stmt :=
 | SRange (p : pos) (names : list ident) (x : expr) (bp : pos) (body : stmts)
 with stmts := SNil | SCons (s : stmt) (ss : stmts).
 
+(* an embedded field  [*][q.]T : the optional package qualifier and the type-name identifier
+   (the star is only text; the field object is declared at the type name: toStructType uses ident.NamePos) *)
+Record embed := Emb { equal : list ident; etyp : ident }.
+
 Inductive decl :=
+| DStruct (n : ident) (embeds : list embed) (fields : list ident) (ftyp : list ident)
+    (* type n struct { embeds...; fields ftyp }  (fields: one grouped field declaration or none) *)
 | DImport (nm : list ident) (ppos : pos) (pkgname : name)
 | DVar (names : list ident) (typ : list ident) (vals : exprs)
 | DConst (names : list ident) (vals : exprs)
@@ -241,6 +247,7 @@ Definition pkg_decl (d : decl) (e : env) : env :=
       | [] => insert (Obj pkgname (InFile ppos) KPkg) e
       | i :: _ => if N.eqb (iname i) 0 then e else insert (Obj (iname i) (InFile (ipos i)) KPkg) e
       end
+  | DStruct n _ _ _ => declare_own [n] KType e
   | DVar names _ _ => declare names (first_pos names) KVar false e
   | DConst names _ => declare names (first_pos names) KConst false e
   | DType n _ => declare_own [n] KType e
@@ -249,8 +256,23 @@ Definition pkg_decl (d : decl) (e : env) : env :=
 
 Definition pkg_env (p : prog) : env := fold_right pkg_decl [[]] p.
 
+(* toStructType on an embedded field: the type expression is resolved (Use of the qualifier and of the
+   type name) and rec.Def(ident, fld) records the field under the type-name identifier, at its position *)
+Definition r_embed (e : env) (em : embed) : list event :=
+  match equal em with
+  | [] => use_ident e (etyp em)
+  | q :: _ => match lookup_env (iname q) e with
+              | Some o => [EvUse q o; EvUse (etyp em) (Obj (iname (etyp em)) Ext KType)]
+              | None => []
+              end
+  end ++ def_own [etyp em] KVar.
+
+Definition embed_ids (em : embed) : list ident := equal em ++ [etyp em].
+
 Definition r_decl (e : env) (d : decl) : list event :=
   match d with
+  | DStruct n embeds fields ftyp =>
+      def_own [n] KType ++ flat_map (r_embed e) embeds ++ def_own fields KVar ++ use_idents e ftyp
   | DImport nm _ _ => def_own nm KPkg
   | DVar names typ vals => use_idents e typ ++ r_exprs e vals ++ def_names names (cur_scope e)
   | DConst names vals => r_exprs e vals ++ def_names names (cur_scope e)
@@ -302,6 +324,7 @@ with ids_stmts (ss : stmts) : list ident :=
 
 Definition ids_decl (d : decl) : list ident :=
   match d with
+  | DStruct n embeds fields ftyp => n :: flat_map embed_ids embeds ++ fields ++ ftyp
   | DImport nm _ _ => nm
   | DVar names typ vals => names ++ typ ++ ids_exprs vals
   | DConst names vals => names ++ ids_exprs vals
@@ -345,6 +368,7 @@ with nodes_stmts (ss : stmts) : list pos :=
 
 Definition nodes_decl (d : decl) : list pos :=
   match d with
+  | DStruct n embeds fields ftyp => ipos n :: map ipos (flat_map embed_ids embeds) ++ map ipos fields ++ map ipos ftyp
   | DImport nm ppos _ => ppos :: map ipos nm
   | DVar names typ vals => map ipos (names ++ typ) ++ nodes_exprs vals
   | DConst names vals => map ipos names ++ nodes_exprs vals
@@ -485,14 +509,14 @@ with rg_stmts (ss : stmts) : list pos :=
 
 Definition nfp_decl (d : decl) : list (pos * pos) :=
   match d with
-  | DImport _ _ _ | DType _ _ => []
+  | DImport _ _ _ | DType _ _ | DStruct _ _ _ _ => []
   | DVar names _ vals => pairs_of names ++ nfp_exprs vals
   | DConst names vals => pairs_of names ++ nfp_exprs vals
   | DFunc _ _ _ _ _ _ _ body => nfp_stmts body
   end.
 Definition rg_decl (d : decl) : list pos :=
   match d with
-  | DImport _ _ _ | DType _ _ => []
+  | DImport _ _ _ | DType _ _ | DStruct _ _ _ _ => []
   | DVar _ _ vals => rg_exprs vals
   | DConst _ vals => rg_exprs vals
   | DFunc _ _ _ _ _ _ _ body => rg_stmts body
@@ -517,6 +541,7 @@ Definition pkg_objs (d : decl) : list obj :=
   | DVar names _ _ => objs_of names (first_pos names) KVar
   | DConst names _ => objs_of names (first_pos names) KConst
   | DType n _ => objs_of [n] (InFile (ipos n)) KType
+  | DStruct n _ _ _ => objs_of [n] (InFile (ipos n)) KType
   | DFunc _ n _ _ _ _ _ _ => objs_of [n] (InFile (ipos n)) KFunc
   end.
 Definition pkg_names_distinct (p : prog) : Prop := NoDup (map oname (flat_map pkg_objs p)).
